@@ -18,8 +18,9 @@
 (***************************************************************************)
 EXTENDS KvIndex, Json
 
-CONSTANTS D,        \* program length
+CONSTANTS D,        \* number of enumerated operations (after the fixed prefix)
           Alpha,    \* "full" | "lean" | "two" | "zero": which alphabet
+          PreName,  \* "none" | "sorted" | "boundary": fixed prefix that every program starts with
           CodeDevs  \* subset of {"F05a", "F05b"}
 VARIABLES c, p, hist, good, devs
 
@@ -63,9 +64,27 @@ OpsZero ==
 Ops == CASE Alpha = "full" -> OpsFull [] Alpha = "lean" -> OpsLean
          [] Alpha = "two" -> OpsTwo  [] Alpha = "zero" -> OpsZero
 
-MCInit == c = I0(KB) /\ p = P0(KB) /\ hist = <<>> /\ good = TRUE /\ devs = {}
+\* A fixed prefix puts every enumerated sequence into a deeper starting state:
+\*   sorted    both keys merged into the sorted section and on disk
+\*   boundary  one key in the sorted section, one pending, one free slot left in the update section
+Pre == CASE PreName = "sorted"   -> IF Alpha = "zero" THEN <<Add("z", "L0"), Add("b", "L1"), Flush(0)>>
+                                     ELSE IF Alpha = "two" THEN <<Add("a", "L0"), Add("o", "L0"), Nullary("flush_all")>>
+                                     ELSE <<Add("a", "L0"), Add("b", "L0"), Flush(7)>>
+        [] PreName = "boundary" -> <<Add("a", "L0"), Flush(7), Add(IF Alpha = "two" THEN "o" ELSE "b", "L0"), Fill(1)>>
+        [] OTHER                -> <<>>
+
+RECURSIVE RunPre(_, _)
+RunPre(x, i) ==
+  IF i > Len(Pre) THEN x
+  ELSE LET r == IApply(x.xc, KB, Pre[i], CodeDevs)
+           j == PStep(x.xp, KB, r.ev)
+       IN RunPre([xc |-> r.st, xp |-> j.st, xg |-> x.xg /\ j.ok,
+                  xd |-> IF j.dev = "" THEN x.xd ELSE x.xd \cup {j.dev}], i + 1)
+
+MCInit == LET x == RunPre([xc |-> I0(KB), xp |-> P0(KB), xg |-> TRUE, xd |-> {}], 1)
+          IN c = x.xc /\ p = x.xp /\ hist = Pre /\ good = x.xg /\ devs = x.xd
 MCNext ==
-  /\ Len(hist) < D
+  /\ Len(hist) < D + Len(Pre)
   /\ \E o \in Ops :
        LET r == IApply(c, KB, o, CodeDevs)
            j == PStep(p, KB, r.ev)
@@ -81,9 +100,11 @@ Coherent == LET o == IObs(c, KB) IN DOMAIN o.ent = {k \in DOMAIN KB : o.look[k] 
 Bounded == \A b \in DOMAIN c.upd : Len(c.upd[b]) <= UpdCap
 \* the ghost position of the property level tracks the code-shaped update section
 GhostExact == \A b \in DOMAIN c.upd : c.ex[b] => p.pend[b] = Len(c.upd[b])
+\* the monotone ghost is an upper bound of the fill level
+AckedUpper == \A b \in DOMAIN c.upd : c.ex[b] => p.acked[b] >= Len(c.upd[b])
 \* only modelled defects ever need a deviation
 NoDevNeeded == devs \subseteq CodeDevs
 
-Emit == Len(hist) = D =>
+Emit == Len(hist) = D + Len(Pre) =>
   PrintT(<<"PROGRAM", ToJson([sys |-> "index", keys |-> KB, locs |-> LocTab, ops |-> hist])>>)
 =============================================================================
